@@ -3,7 +3,7 @@ import re
 
 from hypothesis import strategies as st
 
-from ..common import VERSIONS, crash_signature, digest, grammar, nodes_preorder, short
+from ..common import VERSIONS, crash_signature, digest, grammar, leaf_starting_at, nodes_preorder, short
 from ..engine import Outcome, Prop
 from ..gen import text as T
 from ..gen import valid as V
@@ -163,6 +163,24 @@ def false_issue_signature(m, issue, vi):
             dec += sorted(kinds)
     else:
         dec = scope + [t for t in tags if t in ('in-fstring', 'keyword-argument-name', 'in-import')]
+        if 'starred' in msg or 'assign' in msg or 'delete' in msg:
+            leaf = leaf_starting_at(m, issue.start_pos)
+            anc = []
+            n = leaf
+            while n is not None and n.parent is not None and len(anc) < 3:
+                n = n.parent
+                anc.append(n.type)
+            dec.append('parents=' + '/'.join(anc))
+        if 'async generator' in msg:
+            # is every yield of the function in its parameter defaults / annotations?
+            leaf = leaf_starting_at(m, issue.start_pos)
+            n = leaf
+            while n is not None and n.type != 'funcdef':
+                n = n.parent
+            if n is not None:
+                ys = [y.start_pos for y in n.iter_yield_exprs()]
+                if ys and all(y < n.children[-1].start_pos for y in ys):
+                    dec.append('yield-only-in-parameter-defaults-or-annotations')
     return 'false-issue:%s:%s' % (key, '+'.join(dec) or 'plain')
 
 
